@@ -99,3 +99,62 @@ pub fn postgres_options_uris(
 ) -> (String, String) {
     (opts.uri.clone(), opts.admin_uri.clone())
 }
+
+/// `encode_filter` for the Postgres dialect: `replace_arg_placeholders::<PostgresBackend>` (`$n`).
+#[cfg(feature = "postgres")]
+#[allow(clippy::type_complexity)]
+pub fn encode_filter_pg(
+    filter: TagFilter,
+    start_offset: usize,
+    enc_name: impl Fn(&str) -> Vec<u8>,
+    enc_value: impl Fn(&str) -> Vec<u8>,
+) -> Result<Option<(String, String, Vec<Vec<u8>>)>, Error> {
+    use crate::backend::postgres::PostgresBackend;
+    let tag_query = tag_query(filter.query)?;
+    let mut enc = TagSqlEncoder::new(
+        |name: &str| Ok(enc_name(name)),
+        |value: &str| Ok(enc_value(value)),
+    );
+    if let Some(raw) = enc.encode_query(&tag_query)? {
+        let sql =
+            db_utils::replace_arg_placeholders::<PostgresBackend>(&raw, (start_offset as i64) + 1);
+        Ok(Some((sql, raw, enc.arguments)))
+    } else {
+        Ok(None)
+    }
+}
+
+/// `db_utils::extend_query::<PostgresBackend>` on `base`, with `nparams` parameters already
+/// bound.  Returns the final SQL text and the final number of bound parameters.
+#[cfg(feature = "postgres")]
+pub fn extend_query_pg(
+    base: &str,
+    nparams: usize,
+    tag_filter: Option<(String, Vec<Vec<u8>>)>,
+    offset: Option<i64>,
+    limit: Option<i64>,
+    order_by_id: bool,
+    descending: bool,
+) -> Result<(String, usize), Error> {
+    use crate::backend::postgres::PostgresBackend;
+    let mut params = QueryParams::<<PostgresBackend as QueryPrepare>::DB>::new();
+    for _ in 0..nparams {
+        params.push(0i64);
+    }
+    let query = db_utils::extend_query::<PostgresBackend>(
+        base,
+        &mut params,
+        tag_filter,
+        offset,
+        limit,
+        if order_by_id { Some(OrderBy::Id) } else { None },
+        descending,
+    )?;
+    Ok((query, params.len()))
+}
+
+/// The text of one of the Postgres backend's fixed statements (`"count"`, `"scan"`, …)
+#[cfg(feature = "postgres")]
+pub fn statement_pg(name: &str) -> Option<&'static str> {
+    crate::backend::postgres::verif_statement(name)
+}
